@@ -298,6 +298,10 @@ func genServe(rng *core.Rand) string {
 	w := genWorld(rng)
 	hide := genHide(rng, w)
 	idx := indexSets[rng.Intn(len(indexSets))]
+	omitIndex := rng.Chance(1, 5)
+	if omitIndex {
+		idx = nil
+	}
 	p := genPath(rng, w)
 	sidecars := rng.Chance(1, 3)
 	if sidecars && rng.Chance(1, 2) {
@@ -321,20 +325,38 @@ func genServe(rng *core.Rand) string {
 	orig := genOrig(rng, p)
 	line := fmt.Sprintf("serve %s %s %s %s %s %s %s %s", core.Hex(w.cwd), core.Hex(w.rootCfg), showList(hide), showList(idx),
 		bits(rng.Chance(1, 2), rng.Chance(1, 3), rng.Chance(3, 4), rng.Chance(1, 4), rng.Chance(1, 4), rng.Chance(1, 5)), core.Hex(p), core.Hex(orig), w.treeField())
-	if !sidecars && rng.Chance(1, 3) {
-		line += " 000 . " + core.Hex(rng.Pick(queries))
-		return line
-	}
+	// optional tail: precompressed sidecars, raw query, configuration route
+	preF, encF := "000", "."
 	if sidecars {
-		// precompressed sidecars: which modules are configured, what the client accepts
+		// which modules are configured, what the client accepts
 		var acc []string
 		for n := rng.Intn(4); n > 0; n-- {
 			acc = append(acc, rng.Pick([]string{"gzip", "gzip", "br", "zstd", "identity", "deflate", "*"}))
 		}
-		line += " " + bits(rng.Chance(2, 3), rng.Chance(1, 2), rng.Chance(1, 2)) + " " + showList(acc)
-		if rng.Chance(1, 4) {
-			line += " " + core.Hex(rng.Pick(queries))
+		preF, encF = bits(rng.Chance(2, 3), rng.Chance(1, 2), rng.Chance(1, 2)), showList(acc)
+	}
+	withQuery := rng.Chance(1, 3)
+	via := ""
+	if rng.Chance(1, 2) {
+		via = rng.Pick([]string{"j", "c", "j", "c", "s"})
+	}
+	if omitIndex {
+		if via == "" {
+			via = "s"
 		}
+		via += "d"
+	}
+	switch {
+	case via != "":
+		q := ""
+		if withQuery {
+			q = rng.Pick(queries)
+		}
+		line += " " + preF + " " + encF + " " + core.Hex(q) + " " + via
+	case withQuery:
+		line += " " + preF + " " + encF + " " + core.Hex(rng.Pick(queries))
+	case sidecars:
+		line += " " + preF + " " + encF
 	}
 	return line
 }
@@ -465,5 +487,11 @@ func (prop) Generate(rng *core.Rand, tier string, emit func(string)) {
 	}
 	for i := 0; i < 1200*scale; i++ {
 		emit(genPair(rng))
+	}
+	for i := 0; i < 1500*scale; i++ {
+		// any two requests on two instances: the second answer does not depend on the first
+		a := strings.TrimPrefix(genServe(rng), "serve ")
+		b := strings.TrimPrefix(genServe(rng), "serve ")
+		emit("pair n " + a + " // " + b)
 	}
 }
